@@ -1822,6 +1822,13 @@ class ConfigList(UserList):
                 for obj in self.data
                 if obj.text.strip() != "" or obj.blank_line_keep is True
             ]
+            if len(retval) != len(self.data):
+                # Blank lines were dropped... rebuild the line numbers and the
+                # family relationships from the text that remains
+                return self.bootstrap(
+                    text_list=[obj.text for obj in retval],
+                    debug=debug,
+                )
             self.data = retval
 
         self.commit_checkpoint = self.get_checkpoint()
